@@ -192,7 +192,7 @@ theorem microStep_hdl_old {s s' : State} {th : Th} {ch ch2 : Nat} {op : MOp} {re
     (hs : microStep s th ch ch2 op rest = some (s', o)) {src : Peer} {id : ReqId} {ob : Obj} {sg : Sg}
     (hm : MOp.reqChk1 src id ob sg ∈ s'.prog th ∨ MOp.reqChk2 src id ob sg ∈ s'.prog th) :
     MOp.reqChk1 src id ob sg ∈ op :: rest ∨ MOp.reqChk2 src id ob sg ∈ op :: rest := by
-  rcases microStep_prog hs with ⟨pushed, hp, hpu⟩ | ⟨e, t, hp⟩ | hp
+  rcases microStep_prog hs with ⟨pushed, hp, hpu⟩ | ⟨⟨e, t, hp⟩, -⟩ | ⟨hp, -⟩
   · rw [hp] at hm
     rcases hm with hm | hm
     · rcases List.mem_append.1 hm with h1 | h1
